@@ -215,6 +215,27 @@ class is_flag_active_visitor<Flag, flag_and>""")]),
  dict(name='ctrlblock-heap-copy-shares-pointer', prop='C20', rule='C20.block', edits=[('include/boost/msm/backmp11/detail/basic_polymorphic.hpp', """            *static_cast<T**>(dest) = new T(*typed_src);""", """            *static_cast<T**>(dest) = const_cast<T*>(typed_src);""")]),
  dict(name='ctrlblock-inline-delete', prop='C20', rule='C20.block', edits=[('include/boost/msm/backmp11/detail/basic_polymorphic.hpp', """                static_cast<T*>(ptr)->~T();""", """                delete static_cast<T*>(ptr);""")]),
  dict(name='ctrlblock-trivial-size-of-pointer', prop='C20', rule='C20.block', edits=[('include/boost/msm/backmp11/detail/basic_polymorphic.hpp', """                                               sizeof(T), true};""", """                                               sizeof(T*), true};""")]),
+ dict(name='seqproto-back11-restamp-current', prop='C05', rule='C05.seq-protocol', edits=[(B11, """                        d.second = seq+1;""", """                        d.second = seq;""")]),
+ dict(name='seqproto-back-ordering-compare', prop='C05', rule='C05.seq-protocol', edits=[(B, """                if (cur_seq != pair.second)
+                {
+                    break;
+                }""", """                if (cur_seq < pair.second)
+                {
+                    break;
+                }""")]),
+ dict(name='seqproto-back-prio-site-nonfalse', prop='C05', rule='C05.seq-protocol', edits=[(B, """                defer_helper.do_handle_deferred(HANDLED_TRUE & handled);
+            }
+        }
+    }""", """                defer_helper.do_handle_deferred(handled != HANDLED_FALSE);
+            }
+        }
+    }""")]),
+ dict(name='config-back-exception-tag-from-queue-option', prop='C12', rule='C12.config', edits=[(B, """                ::boost::mpl::bool_<is_no_exception_thrown<library_sm>::type::value>(),""", """                ::boost::mpl::bool_<is_no_message_queue<library_sm>::type::value>(),""")]),
+ dict(name='consume-back11-any-from-forward', prop='C18', rule='C18.consume', edits=[('include/boost/msm/back11/dispatch_table.hpp', """            typename Transition::transition_event forwarded(evt);""", """            typename Transition::transition_event forwarded(std::move(evt));""")]),
+ dict(name='wiring-back-assign-rewires', prop='C15', rule='C07.wiring', edits=[(B, """            Derived::operator=(rhs);
+            do_copy(rhs);""", """            Derived::operator=(rhs);
+            fill_states(this);
+            do_copy(rhs);""")]),
  # ---- behaviour-preserving edits: the checks must stay silent
  dict(name='refactor-rename-local', prop='C02', refactor=True, edits=[(B, """            HandledEnum res = ROW::action_call(fsm,evt,
                              ::boost::fusion::at_key<current_state_type>(fsm.m_substate_list),
